@@ -255,8 +255,20 @@ def _work(tier):
         for api in APIS:
             for n in (300, 2000) + ((8000,) if tier == "thorough" else ()):
                 s = ch * n + tail
+                # anchored at ^: only the first start position can do real work (one step budget, a few API-internal matcher
+                # runs), every other position fails within a few steps
+                cap = STEP_LIMIT * 3 + 40 * len(s) if pat.startswith("^") else STEP_LIMIT * (len(s) + 2) * 3
                 out.append(("%s via `%s` on %s^%d%s, no time limit" % (pat, api, ch, n, tail),
-                            {"src": "var P = %s; %s" % (_js(pat), api), "s": s, "tl": None, "cap": STEP_LIMIT * (len(s) + 2) * 3}))
+                            {"src": "var P = %s; %s" % (_js(pat), api), "s": s, "tl": None, "cap": cap}))
+    # very many matches, each far below a poll interval: with a time limit the work must still stop within the poll budget
+    for pat, ch in (("a", "a"), ("a|b", "a"), ("(a)(?=a|$)", "a"), ("\\ba", "a ")):
+        for api in ("S.replace(new RegExp(P, 'g'), 'x')", "S.replace(new RegExp(P, 'g'), function (m) { return m })", "S.match(new RegExp(P, 'g'))",
+                    "S.split(new RegExp(P))", "S.replaceAll(new RegExp(P, 'g'), 'y')", "var re = new RegExp(P, 'g'), n = 0; while (re.test(S)) { n++ }"):
+            for n in (20000, 60000):
+                s = ch * n
+                tl = 20
+                out.append(("%s via `%s` on (%s)^%d: many short matches, time limit set" % (pat, api, ch, n),
+                            {"src": "var P = %s; %s" % (_js(pat), api), "s": s, "tl": tl, "cap": (tl + 4) * 100 * 4 + 4000}))
     # more backtrack entries than the matcher keeps (10 000): a catchable error or a result through every API, never a host one
     for pat, ch, tail in (("(?:a|b)*c", "a", ""), ("(a|b)*$", "a", "!"), ("(?:a?)*b", "a", ""), ("^(?:a|(b))+?$", "a", "!")):
         for api in APIS:
@@ -327,7 +339,7 @@ def _positions():
 
 def _sp(name, runner, fn, rule, bound, batch=4, watchdog=60):
     return Space(name, "mc.props.c10:" + runner, fn, oracle="inline", rule=rule, bound=bound, batch=batch,
-                 watchdog=watchdog, nontrivial=lambda cid, p, exp: True)
+                 watchdog=watchdog, nontrivial=lambda cid, p, exp: True, nondeterminism_is_violation=True)
 
 
 def spaces(tier, seed, all_strata=False):
